@@ -350,6 +350,8 @@ func caseFixedOffset(ks *kase) {
 			dec = nil
 		}
 		ks.k.nontrivial("fixedoffset", h)
+		ks.k.sample(map[string]interface{}{"family": "fixedoffset", "case_idx": ks.idx, "offsets": len(vals), "max_offset": mx,
+			"width": minWidth(mx), "increasing": increasing, "encoded_bytes": len(data)})
 	}
 }
 
@@ -736,6 +738,8 @@ func caseSnappy(ks *kase, maxSize int) {
 		if len(payload) <= 300_000 {
 			earlier = append(earlier, kept{comp, payload})
 		}
+		ks.k.sample(map[string]interface{}{"family": "snappy", "case_idx": ks.idx, "round": round, "payload_bytes": len(payload),
+			"payload_style": desc, "compressed_bytes": len(comp)})
 		ks.k.nontrivial("snappy", hash64(hash64(uint64(len(payload)), uint64(len(comp))), r.s))
 	}
 }
